@@ -764,6 +764,43 @@ def r07_15(ctx, rep):
     rep.ob(R, site, "the binding becomes an equation", bool(appends), "no append to <node>.equations found")
 
 
+@SPEC.rule(
+    "R07.16",
+    "names are resolved from the class that writes them, and a component's class is instantiated where it is declared: (a) every "
+    "find_class(<e>.component) for the elements e of `<K>.extends` is called on K itself (not on K's parent with K as a fallback — a class "
+    "that extends one of its own nested classes would get a same-named class of an enclosing scope); (b) where build_instance_tree "
+    "instantiates the class c of a component (`build_instance_tree(c, <symbol>.class_modification, P)`), P is c.parent — parenting it to the "
+    "instantiating class resolves c's own component types from the wrong scope at depth two",
+)
+def r07_16(ctx, rep):
+    from ..pyutil import inlined
+    R = "R07.16"
+    n_a = n_b = 0
+    mod = ctx.module(TREE, R)
+    for fn in [x for x in ast.walk(mod) if isinstance(x, ast.FunctionDef)]:
+        site = TREE + ":" + fn.name
+        for lp in ast.walk(fn):
+            if isinstance(lp, ast.For) and isinstance(lp.target, ast.Name) and isinstance(lp.iter, ast.Attribute) and lp.iter.attr == "extends":
+                holder = norm(lp.iter.value)
+                for c in calls(lp):
+                    if isinstance(c.func, ast.Attribute) and c.func.attr == "find_class" and c.args and norm(c.args[0]) == lp.target.id + ".component":
+                        n_a += 1
+                        rep.ob(R, site, "base class of `%s.extends` looked up from the class itself" % holder, norm(c.func.value) == holder,
+                               "`%s` resolves the name of a base class of %s from another scope: nested classes and imports of %s itself are hidden by "
+                               "same-named classes further out" % (norm(c)[:70], holder, holder))
+        if fn.name == "build_instance_tree":
+            body = [st for st in ast.walk(fn) if isinstance(st, ast.stmt)]
+            for c in calls(fn):
+                if is_name(c.func, "build_instance_tree") and len(c.args) >= 2 and isinstance(c.args[0], ast.Name) and ".class_modification" in norm(c.args[1]):
+                    p_ = c.args[2] if len(c.args) > 2 else next((k.value for k in c.keywords if k.arg == "parent"), None)
+                    n_b += 1
+                    got = norm(inlined(p_, body, keep={c.args[0].id})) if p_ is not None else "(none)"
+                    rep.ob(R, site, "component class `%s` instantiated under its own parent" % c.args[0].id, got == c.args[0].id + ".parent",
+                           "the instance of the component's class is parented to `%s`, not to %s.parent: names inside it are resolved from the wrong scope" % (got[:80], c.args[0].id))
+    if n_a < 2 or n_b < 2:
+        raise MechanismMissing(R, "expected >= 2 base-class lookups and >= 2 component instantiations, found %d / %d" % (n_a, n_b))
+
+
 # -- seeded variants ---------------------------------------------------------
 from ._mut import delete_stmt_where, replace_in_func  # noqa: E402
 
@@ -933,6 +970,30 @@ def _m_nested_parent(mod):
             if isinstance(st, ast.Assign) and isinstance(st.targets[0], ast.Subscript) and norm(st.targets[0].value) == "extended_orig_class.classes" \
                     and isinstance(st.value, ast.Call) and len(st.value.args) == 3:
                 st.value.args[2] = ast.Name(id="orig_class", ctx=ast.Load())
+                return True
+        return False
+
+    return mod if replace_in_func(mod, "build_instance_tree", edit) else None
+
+
+@SPEC.mutant("base classes looked up from the enclosing scope", TREE, "R07.16", "looked up from the class itself")
+def _m_extends_scope(mod):
+    def edit(fn):
+        for c in ast.walk(fn):
+            if isinstance(c, ast.Call) and isinstance(c.func, ast.Attribute) and c.func.attr == "find_class" and c.args and norm(c.args[0]).endswith(".component"):
+                c.func.value = ast.Attribute(value=c.func.value, attr="parent", ctx=ast.Load())
+                return True
+        return False
+
+    return mod if replace_in_func(mod, "flatten_extends", edit) else None
+
+
+@SPEC.mutant("component class instantiated inside the instantiating class", TREE, "R07.16", "instantiated under its own parent")
+def _m_instance_parent(mod):
+    def edit(fn):
+        for c in ast.walk(fn):
+            if isinstance(c, ast.Call) and is_name(c.func, "build_instance_tree") and len(c.args) == 3 and norm(c.args[2]).endswith(".parent") and ".class_modification" in norm(c.args[1]):
+                c.args[2] = ast.Name(id="extended_orig_class", ctx=ast.Load())
                 return True
         return False
 
